@@ -68,6 +68,12 @@ def family(tier):
     fam.append(('exotic:l2', [c02.ev(('m', ('n', 0, [('m', ('n', 1, [('p', 2, ('n', 2, [('p', 1, ('n', 3, []))]))])), ('p', 1, ('n', 4, []))])))]))
     fam.append(('exotic:lib', [RC.RCell('1', (RC.library(bytes(range(32))),))]))
     fam.append(('exotic:mask7', [RC.RCell('1', (RC.pruned_raw(7, [bytes([i]) * 32 for i in (1, 2, 3)], [1, 2, 3]), RC.RCell('0')))]))
+    # maximal cells: 1016..1023 data bits (the last data byte with every residue; 1017..1023 bits arrive as 128 raw bytes) x 0 / 4 references
+    for L in (1015, 1016, 1017, 1020, 1023):
+        for nrefs in (0, 4):
+            kids = tuple(RC.RCell(format(i, '03b')) for i in range(nrefs))
+            fam.append((f'full:{L}:{nrefs}', [RC.RCell(('10' * 512)[:L - 1] + '1', kids)]))
+            fam.append((f'fullchild:{L}:{nrefs}', [RC.RCell('1', (RC.RCell(('01' * 512)[:L], kids),))]))
     # an exotic cell and an ordinary cell with identical bits in one bag (both orders)
     lib = RC.library(bytes(range(32)))
     fam.append(('twin:lib', [RC.RCell('1', (lib, RC.RCell(lib.bits)))]))
